@@ -134,6 +134,10 @@ func (e *Exec) caseReady(self *thread, c *selCase) bool {
 
 // doSelect parks on the cases and, once scheduled, performs one ready case.
 // It returns the index of the case taken (-1 = default), and for receives the value.
+// freeSelects is the number of selects with several ready cases, per execution, whose alternatives are explored
+// at no cost.
+const freeSelects = 6
+
 func (e *Exec) doSelect(cases []selCase, hasDefault bool) (int, any, bool) {
 	t := e.cur
 	o := &selOp{cases: cases, hasDefault: hasDefault}
@@ -166,7 +170,16 @@ func (e *Exec) doSelect(cases []selCase, hasDefault bool) (int, any, bool) {
 	if len(ready) > 1 {
 		// Go picks uniformly among the ready cases: none of them is "the default", so every one of them is
 		// explored at no cost (a deviation budget of 0 still covers both outcomes)
+		// ... for the first freeSelects such selects of an execution: beyond that the alternatives cost one deviation
+		// each, or n selects with two ready cases would multiply the tree by 2^n (40 handlers waiting on "result or
+		// context done" with both ready did exactly that).
 		cost := make([]int8, len(ready))
+		if e.freeSel >= freeSelects {
+			for i := 1; i < len(ready); i++ {
+				cost[i] = 1
+			}
+		}
+		e.freeSel++
 		pick = ready[e.decide("select", len(ready), cost, o.desc())]
 	}
 	c := cases[pick]
